@@ -238,6 +238,11 @@ def run(check, an: Analysis):
     # alone that already has its outcome) and the Queue (a message is only taken under the
     # read mutex: no pop from an empty buffer escapes as IndexError)
     c04.check_task_close(SubCheck(check, 'A', 'Task'), an, 'F')
+    escaping = [path for path in an.paths(wrapper) if not path.normal]
+    check.instance('A', 'Task:wrapper:nothing-escapes', not escaping, where_fn(wrapper.fn),
+                   'every path of the task wrapper ends normally: no signal delivered to a '
+                   'task leaves it towards run()',
+                   path=rules.path_lines(escaping[0]) if escaping else None)
     from . import c10, c08
     c10.run(SubCheck(check, 'A', 'Queue'), an)
     c08.check_subscription_paired(SubCheck(check, 'A', 'Notification'), an, 'S')
